@@ -871,7 +871,11 @@ pub fn corrupt(r: &mut Rng, e: &str) -> (String, &'static str) {
         }
         1 => (format!("{e})"), "unbalanced"),
         2 => (format!("({e}"), "unbalanced"),
-        3 => (e.replacen("(", "(no_such_function_", 1), "unknown-name"),
+        3 => {
+            // an expression without a call has no name to corrupt: wrap it in an unknown function
+            if e.contains('(') { (e.replacen("(", "(no_such_function_", 1), "unknown-name") }
+            else { (format!("(no_such_function_ {e})"), "unknown-name") }
+        }
         4 => (format!("{e} garbage("), "trailing-garbage"),
         5 => {
             // arity +1 on the first call
